@@ -23,7 +23,7 @@ GENERIC = ["C05", "C06", "C02", "C03", "C13", "C16", "C09", "C10", "C14", "C08",
 def sh(cmd, cwd=None, timeout=1800, extra=None):
     e = dict(ENV); e.update(extra or {})
     try:
-        p = subprocess.run(cmd, shell=True, cwd=cwd, env=e, capture_output=True, text=True, timeout=timeout)
+        p = subprocess.run(cmd, shell=True, cwd=cwd, env=e, capture_output=True, text=True, errors="replace", timeout=timeout)
         return p.returncode, p.stdout + p.stderr
     except subprocess.TimeoutExpired:
         return 124, "timeout"
